@@ -112,11 +112,21 @@ func (c *evalCtx) eval(e *Expr) EV {
 		c.vc.activeBound = append(c.vc.activeBound, vars...)
 		body := n.bool(n.eval(e.Args[0]), e)
 		c.vc.activeBound = c.vc.activeBound[:len(c.vc.activeBound)-len(vars)]
-		body = p.RebaseQuant(vars, body)
 		if e.Name == "forall" {
+			// universally quantified index variables are re-based (select(A, off+i) becomes select(A, j)) so that
+			// the array reads are usable as triggers; existential ones keep the relative index, so that the witness
+			// of an existential hypothesis is syntactically a witness of the same existential over an appended or
+			// re-allocated slice
+			body = p.RebaseQuant(vars, body)
 			return EV{V: scalar(p.Forall(vars, body))}
 		}
-		return EV{V: scalar(p.Exists(vars, body))}
+		// both index forms, as a disjunction of two equivalent formulas: whichever polarity the formula ends up in,
+		// a witness found in one form serves the same form on the other side
+		abs := p.RebaseQuant(vars, body)
+		if abs == body {
+			return EV{V: scalar(p.Exists(vars, body))}
+		}
+		return EV{V: scalar(p.ExDual(p.Exists(vars, body), p.Exists(vars, abs)))}
 	case "binary":
 		return c.evalBinary(e)
 	case "call":
@@ -502,6 +512,20 @@ func (c *evalCtx) evalCall(e *Expr) EV {
 			}
 			args = append(args, t)
 		}
+		// state-dependent function: the current versions of the heap maps it reads are further arguments
+		for _, k := range uf.Reads {
+			srt, known := vc.heapSort[k]
+			if !known {
+				if gs, ok := vc.guessKeySort(k); ok {
+					vc.heapInit(k, &gs)
+					srt, known = gs, true
+				}
+			}
+			if !known {
+				return c.fail("sfun %s reads %s, whose sort is not known", name, k)
+			}
+			args = append(args, vc.heapGet(c.st, k, srt))
+		}
 		return EV{V: scalar(p.App("spec$"+name, uf.Ret, args...))}
 	}
 	arg := func(i int) EV {
@@ -545,6 +569,36 @@ func (c *evalCtx) evalCall(e *Expr) EV {
 			return EV{V: scalar(vc.bytesContent(c.st, a.V))}
 		}
 		return EV{V: scalar(c.int(a, e))} // strings and arrays are their own content
+	case "inlist":
+		// inlist(s, a): a is an element of slice s. An uninterpreted predicate of (backing row, offset, length, a)
+		// whose meaning is fixed by: no element in an empty slice; every element is in; whatever is in has an index;
+		// and the append lemma emitted at every single-element append.
+		sv, av := arg(0), arg(1)
+		if sv.V.K != VSlice || sv.T == nil {
+			return c.fail("inlist() needs a slice in %s", e)
+		}
+		st0, ok := sv.T.Underlying().(*types.Slice)
+		if !ok || classify(st0.Elem()) != TKInt {
+			return c.fail("inlist() needs a slice of scalar elements in %s", e)
+		}
+		row := p.Select(vc.heapGet(c.st, elemMapKey(st0.Elem()), ArrSort(SInt, ArrSort(SInt, SInt))), sv.V.Arr)
+		t := p.App("inlist", SBool, row, sv.V.Off, sv.V.Len, c.int(av, e))
+		dk := p.App("inlistdef", SBool, row, sv.V.Off, sv.V.Len)
+		if !vc.typed[dk] {
+			vc.typed[dk] = true
+			vc.qSeq++
+			i := p.Var(fmt.Sprintf("mi?%d", vc.qSeq), SInt)
+			vc.qSeq++
+			a := p.Var(fmt.Sprintf("ma?%d", vc.qSeq), SInt)
+			inR := p.And(p.Le(p.Int(0), i), p.Lt(i, sv.V.Len))
+			el := p.Select(row, p.Add(sv.V.Off, i))
+			// every element is in (absolute index j, so that a read row[j] is the trigger)
+			inA := p.And(p.Le(sv.V.Off, i), p.Lt(i, p.Add(sv.V.Off, sv.V.Len)))
+			vc.assumeGlobal(p.Forall([]*Term{i}, p.Implies(inA, p.App("inlist", SBool, row, sv.V.Off, sv.V.Len, p.Select(row, i)))))
+			vc.assumeGlobal(p.Forall([]*Term{a}, p.Implies(p.App("inlist", SBool, row, sv.V.Off, sv.V.Len, a), p.Exists([]*Term{i}, p.And(inR, p.Eq(el, a))))))
+			vc.assumeGlobal(p.Forall([]*Term{a}, p.Implies(p.Le(sv.V.Len, p.Int(0)), p.Not(p.App("inlist", SBool, row, sv.V.Off, sv.V.Len, a)))))
+		}
+		return EV{V: scalar(t)}
 	case "strlen":
 		return EV{V: scalar(p.App("strlen", SInt, c.int(arg(0), e)))}
 	case "u256bytes":
